@@ -10,7 +10,8 @@ HOOKS = {
                        "verif hook: expose the overlay augmentation entry points (build/verif_hooks_c12.go)",
                        "verif hook: expose sourcemapx hints/filter and funcContext output plumbing (compiler/verif_hooks_c19.go)",
                        "verif hook: expose removeWhitespace, name allocation and encodeIdent (compiler/verif_hooks_c16.go)",
-                       "verif hook: let a session use the build cache (build/verif_hooks_c20.go)"],
+                       "verif hook: let a session use the build cache (build/verif_hooks_c20.go)",
+                       "verif hook: expose the dead-code selection as the linker computes it (compiler/verif_hooks_c05.go)"],
     "add_only": True,
 }
 
@@ -26,6 +27,19 @@ NOTES = ("Every check: python3 run.py Cxx --tier quick|thorough. Lean theorems a
 NOT_APPLICABLE = {}
 
 CHECKS = {
+    "C05": {
+        "text": "Lean theorems over a transcription of the work-list selector (dce/selector.go as driven by WriteProgramCode): for all "
+                "declaration lists, inclusion orders and pending-list disciplines the selection is exactly the least set containing the roots "
+                "(alive, unnamed, go:linkname implementations) and closed under 'all non-empty filters occur among dependency names of "
+                "members' (select_lfp); hence order-independent, monotone in alive, closed under recorded dependencies, exact, and stable "
+                "under injective renaming of filter names. Tied to the real dce.Selector (verif hook) on the full declaration tables of "
+                "every generated program incl. the runtime, to the linker's emission, to a static closure scan of live code, and to the "
+                "property's own observation: generated programs linked normally vs with every declaration forced alive vs native Go.",
+        "note": "Not proved: completeness of dependency recording in the translator and injectivity of the filter names (filters.go) - "
+                "exercised by 20 program generators (interfaces, unexported and same-named methods, method values/expressions, embedding, "
+                "generics, nested types, side-effecting initialisers, linknames, composite signature spellings).",
+        "technique": "Lean 4 proof (loop invariant, well-founded recursion; model = least fixed point) + differential correspondence with the real selector through a verif hook + normal vs all-alive vs native program runs",
+    },
     "C02": {
         "text": "Lean theorems over a MiniGo statement language with opaque primitives (GV.Ctrl) and a transcription of the flattened "
                 "switch-case translation (caseCounter numbering, if-chains, loops with blocking post statements, labelled break/continue, "
